@@ -281,6 +281,42 @@ static void cache_part(int shard, int nshards, int depth, hz::Result& r) {
     }
   }
   r.count("states", static_cast<long long>(states.size()));
+  // one LONG history (the exhaustive part above cannot reach a bounded or evicting cache): N distinct failing names,
+  // N distinct valid names and N out-of-range fixed-shaped names, each loaded once, then everything loaded again in
+  // the same and in reverse order; nothing may consult the data source a second time and every reload must return
+  // the first identity.
+  if (shard == 0) {
+    const int N = 2000;
+    cctz::time_zone::Impl::ClearTimeZoneMapTestOnly();
+    reg.calls.clear();
+    std::vector<std::string> names;
+    for (int i = 0; i < N; ++i) {
+      names.push_back("Absent/" + std::to_string(i));
+      names.push_back("Many/" + std::to_string(i));
+      reg.zones["Many/" + std::to_string(i)] = (i % 50) ? a.bytes : b.bytes;
+      char buf[40]; snprintf(buf, sizeof buf, "Fixed/UTC+%02d:%02d:%02d", 25 + i / 3600 % 70, i / 60 % 60, i % 60);
+      names.push_back(buf);
+    }
+    std::vector<std::pair<bool, cctz::time_zone>> first(names.size());
+    for (size_t i = 0; i < names.size(); ++i) { cctz::time_zone tz; const bool ok = cctz::load_time_zone(names[i], &tz); first[i] = {ok, tz}; r.count("transitions"); }
+    for (int pass = 0; pass < 2; ++pass) {
+      for (size_t k = 0; k < names.size(); ++k) {
+        const size_t i = pass ? names.size() - 1 - k : k;
+        cctz::time_zone tz;
+        const bool ok = cctz::load_time_zone(names[i], &tz);
+        r.count("transitions"); r.count("evaluations");
+        const int calls = reg.calls.count(names[i]) ? reg.calls[names[i]] : 0;
+        if (ok != first[i].first || tz != first[i].second || calls > 1) {
+          r.violation("C14:cache:long-history", "after " + std::to_string(names.size()) + " distinct first loads, reloading '" + names[i] + "' returned " + (ok != first[i].first ? "a different status" : tz != first[i].second ? "a different identity" : "the same result") +
+                      " and the data source was consulted " + std::to_string(calls) + " time(s) for it", {"--seq", "long"});
+          pass = 2;
+          break;
+        }
+      }
+    }
+    for (int i = 0; i < N; ++i) reg.zones.erase("Many/" + std::to_string(i));
+    r.cls("C14:cache:long-history");
+  }
 }
 
 // ---------------------------------------------------------------------------
